@@ -6,8 +6,11 @@ import (
 	"path/filepath"
 	"reflect"
 	"regexp"
+	"runtime"
 	"sort"
 	"strings"
+	"sync"
+	"sync/atomic"
 
 	"github.com/nuetzliches/hookaido/internal/config"
 	"github.com/nuetzliches/hookaido/verifharness/vlib"
@@ -465,8 +468,69 @@ func c19Features(t string) string {
 }
 
 // C19: config fmt round-trips.
+// c19Concurrent: Format is called from several places of one process (fmt
+// preview, diff, management rewrites, MCP): many goroutines format different
+// configurations at the same time. Every result must be the text the same call
+// gives when it runs alone.
+func c19Concurrent(c *vlib.Ctx, texts []string) {
+	type item struct {
+		cfg  *config.Config
+		want string
+	}
+	var items []item
+	for _, t := range texts {
+		cfg, err := config.Parse([]byte(t))
+		if err != nil {
+			continue
+		}
+		f, err := config.Format(cfg)
+		if err != nil {
+			continue
+		}
+		items = append(items, item{cfg, string(f)})
+		if len(items) >= 60 {
+			break
+		}
+	}
+	if len(items) < 8 {
+		c.Inconclusive("C19 concurrent: too few texts")
+		return
+	}
+	// more goroutines than processors, so that a preempted call is overtaken by
+	// others on the same processor
+	workers := 4 * runtime.GOMAXPROCS(0)
+	if workers < 16 {
+		workers = 16
+	}
+	rounds := c.N(1500, 40000)
+	var wg sync.WaitGroup
+	var bad atomic.Int64
+	var first atomic.Value
+	for g := 0; g < workers; g++ {
+		wg.Add(1)
+		go func(g int) {
+			defer wg.Done()
+			for k := 0; k < rounds && bad.Load() == 0; k++ {
+				it := items[(g*7+k)%len(items)]
+				f, err := config.Format(it.cfg)
+				if err != nil || string(f) != it.want {
+					bad.Add(1)
+					first.CompareAndSwap(nil, map[string]any{"alone": it.want, "next_to_other_format_calls": string(f), "error": fmt.Sprint(err)})
+				}
+			}
+		}(g)
+	}
+	wg.Wait()
+	c.Count("evaluations", int64(workers*rounds))
+	c.Count("concurrent_format_calls", int64(workers*rounds))
+	c.Distinct("nontrivial", fmt.Sprintf("concurrent_format:differs=%v", bad.Load() > 0))
+	if bad.Load() > 0 {
+		c.Violation(vlib.Signature{"class": "format_differs_under_concurrency"}, "Format of a configuration gives another text when other Format calls run at the same time", first.Load())
+	}
+}
+
 func C19(c *vlib.Ctx) {
-	c.Rule("three generators: (1) grammar-directed texts from a directive table transcribed from the parser (every top-level block, route directive, shorthand and block forms, channel wrappers, named matchers, multi-value directives); (2) spelling mutators applied 1-4 times to any text (quote/unquote, escapes incl. unknown ones, comments in every position, CRLF/CR, BOM, blank lines, tabs, placeholders {$V} {$V:d} {env.V} {file.P} {vars.N}, joined and duplicated lines, values that need quoting); (3) a corpus harvested at run time from the tree (Hookaidofile, fenced blocks of docs/*.md and *.md, raw string literals of the config/app/mcp tests) and recombined block-wise. Oracle on every text that parses: Format(Parse(t)) parses, compiles to a reflect.DeepEqual runtime configuration with the same validation result, and is a fixed point of Format∘Parse. distinct_nontrivial = distinct sets of (directive, spelling) features among the texts that parse.")
+	c.Rule("three generators: (1) grammar-directed texts from a directive table transcribed from the parser (every top-level block, route directive, shorthand and block forms, channel wrappers, named matchers, multi-value directives); (2) spelling mutators applied 1-4 times to any text (quote/unquote, escapes incl. unknown ones, comments in every position, CRLF/CR, BOM, blank lines, tabs, placeholders {$V} {$V:d} {env.V} {file.P} {vars.N}, joined and duplicated lines, values that need quoting); (3) a corpus harvested at run time from the tree (Hookaidofile, fenced blocks of docs/*.md and *.md, raw string literals of the config/app/mcp tests) and recombined block-wise. Oracle on every text that parses: Format(Parse(t)) parses, compiles to a reflect.DeepEqual runtime configuration with the same validation result, and is a fixed point of Format∘Parse; 4 x GOMAXPROCS goroutines formatting different corpus configurations at once must each get the text the call gives alone. distinct_nontrivial = distinct sets of (directive, spelling) features among the texts that parse.")
 	c.Assume("environment variables and files referenced by placeholders are fixed by the harness for the whole run")
 	os.Setenv("VERIF_C19_A", "alpha")
 	os.Setenv("VERIF_C19_B", "beta value")
@@ -493,6 +557,7 @@ func C19(c *vlib.Ctx) {
 		blocks = append(blocks, splitTopLevel(t)...)
 	}
 	c.Set("corpus_blocks", len(blocks))
+	c19Concurrent(c, parsing)
 	n := c.N(6000, 600000)
 	if c.Thorough() {
 		c19LongChance = 0.002
